@@ -591,7 +591,36 @@ class QGen:
         opts = [(4, "count"), (4, "sum"), (2, "agg")]
         if f.minmax:
             opts.append((2, "minmax"))
+        if f.seq2d and not self.noflat:
+            opts.append((2, "seqseq"))
         k = self.weighted(opts)
+        if k == "seqseq":
+            # an aggregate over a sequence whose ELEMENTS are sequences (no flattening): how many there are, how many pass a test, a fold over them
+            os_ = self.objseq(scope, 0)
+            if os_ is not None:
+                v = self.newvar(scope, "j")
+                sc2 = self.bind(scope, v, TObj(os_[1]))
+                self.noflat += 1
+                self.safe += 1
+                inner = self.unbare(sc2, self.numseq(sc2, 1 if fuel > 1 else 0))
+                self.safe -= 1
+                self.noflat -= 1
+                if inner is not None:
+                    ss = f"{os_[0]}.Select(lambda {v}: {inner[0]})"
+                    self.labels.add("aggregate-over-sequence-of-sequences")
+                    self.nops += 3
+                    how = self.pick(["count", "where-count", "fold-sum", "fold-count"])
+                    if how == "count":
+                        self.labels.add("Count")
+                        return (f"{ss}.Count()", "int")
+                    if how == "where-count":
+                        self.labels.add("Count")
+                        return (f"{ss}.Where(lambda ss1: ss1.Count() > {self.pick(['0', '1'])}).Count()", "int")
+                    self.labels.add("Aggregate")
+                    if how == "fold-sum":
+                        return (f"{ss}.Aggregate(0.0, lambda sacc, ss1: sacc + ss1.Sum())", "double")
+                    return (f"{ss}.Aggregate(0, lambda sacc, ss1: sacc + ss1.Count())", "int")
+            k = "count"
         if k == "count":
             self.noflat += 1
             r = self.objseq(scope, fuel - 1) if self.chance(2, 3) else self.numseq(scope, fuel - 1)
